@@ -59,6 +59,8 @@ type FnCtx struct {
 	quiet         int // >0: suppress obligations (spec-level calls)
 	curPos        token.Pos
 	writtenNames  map[string]bool // all heap names written in this function (for frame check)
+	volatileNames map[string]bool // heap names havocked at a monitor acquisition (other threads' writes): exempt from the frame check
+	inAcquire     bool
 	havocAllSeen  bool
 	ghostDefs     map[string]bool
 	nq            int
@@ -97,6 +99,12 @@ type retEdge struct {
 
 func (fc *FnCtx) noteWrite(name string) {
 	fc.writtenNames[name] = true
+	if fc.inAcquire {
+		if fc.volatileNames == nil {
+			fc.volatileNames = map[string]bool{}
+		}
+		fc.volatileNames[name] = true
+	}
 	for _, h := range fc.activeLoops {
 		m := fc.loopWrites[h]
 		if m == nil {
@@ -285,6 +293,11 @@ func (fc *FnCtx) tagOf(t types.Type) string {
 func (fc *FnCtx) locsOf(a *Addr) (name string, idx []string) { return fc.addrBase(a) }
 
 func (fc *FnCtx) load(st *State, a *Addr) Val {
+	if a.Alt != nil {
+		p := *a
+		p.Alt, p.AltCond = nil, ""
+		return fc.mergeVal(a.AltCond, fc.load(st, &p), fc.load(st, a.Alt))
+	}
 	switch a.Kind {
 	case ACell:
 		v, ok := st.cells[a.Cell]
@@ -344,6 +357,13 @@ func (fc *FnCtx) load(st *State, a *Addr) Val {
 func isChan(t types.Type) bool { _, ok := t.Underlying().(*types.Chan); return ok }
 
 func (fc *FnCtx) store(st *State, a *Addr, v Val) {
+	if a.Alt != nil {
+		p := *a
+		p.Alt, p.AltCond = nil, ""
+		fc.store(st, &p, fc.mergeVal(a.AltCond, v, fc.load(st, &p)))
+		fc.store(st, a.Alt, fc.mergeVal(a.AltCond, fc.load(st, a.Alt), v))
+		return
+	}
 	switch a.Kind {
 	case ACell:
 		if len(a.Path) > 0 {
@@ -451,8 +471,13 @@ func (fc *FnCtx) mergeVal(c string, a, b Val) Val {
 		na := *a.A
 		switch a.A.Kind {
 		case AObj, AOpaque:
-			if !samePath(a.A, b.A) {
-				unsup("merge of interior pointers with different paths")
+			if !samePath(a.A, b.A) || a.A.Alt != nil || b.A.Alt != nil {
+				if a.A.Alt != nil || !types.Identical(a.A.T, b.A.T) {
+					unsup("merge of interior pointers with different paths")
+				}
+				na.Alt, na.AltCond = b.A, c
+				out.A = &na
+				return out
 			}
 			na.Base = tIte(c, a.A.Base, b.A.Base)
 			if a.A.Idx != "" || b.A.Idx != "" {
